@@ -101,3 +101,82 @@ def box_bound(lins, extra_consts=()):
 def points(vars_, bound, lo=0):
     for vals in itertools.product(range(lo, bound + 1), repeat=len(vars_)):
         yield dict(zip(vars_, vals))
+
+
+# ---------------------------------------------------------------------------------------
+# exact satisfiability of conjunctions of zone constraints over the non-negative integers
+
+def _to_diffs(lin):
+    """One linear constraint -> list of alternatives, each a list of (x, y, c) meaning x - y <= c
+    ('0' is the zero node).  Raises NotLinear for non-zone constraints."""
+    coeffs, const, op = lin
+    const = Fraction(const)
+    if const.denominator != 1:
+        raise NotLinear('non-integer constant')
+    c = int(const)
+    items = sorted(coeffs.items())
+
+    def le(items, c):
+        # sum + c <= 0
+        if not items:
+            return [('0', '0', -c)] if c > 0 else []
+        if len(items) == 1:
+            (x, a), = items
+            if a == 1:
+                return [(x, '0', -c)]
+            if a == -1:
+                return [('0', x, -c)]
+        if len(items) == 2:
+            (x, a), (y, b) = items
+            if a == 1 and b == -1:
+                return [(x, y, -c)]
+            if a == -1 and b == 1:
+                return [(y, x, -c)]
+        raise NotLinear('not a zone constraint: %r' % (coeffs,))
+    neg = [(x, -a) for x, a in items]
+    if op == '<=':
+        return [le(items, c)]
+    if op == '<':
+        return [le(items, c + 1)]
+    if op == '==':
+        return [le(items, c) + le(neg, -c)]
+    if op == '!=':
+        return [le(items, c + 1), le(neg, -c + 1)]
+    raise NotLinear(op)
+
+
+def sat(lins, vars_=('n', 'k')):
+    """Is the conjunction satisfiable over integers >= 0?  (difference-bound closure; exact)"""
+    import itertools
+    alts = [_to_diffs(l) for l in lins]
+    nodes = ['0'] + list(vars_)
+    for choice in itertools.product(*alts) if alts else [()]:
+        INF = None
+        d = {(a, b): (0 if a == b else INF) for a in nodes for b in nodes}
+        for v in vars_:
+            d[('0', v)] = 0          # 0 - v <= 0
+        ok = True
+        for group in choice:
+            for (x, y, c) in group:
+                if x == y:
+                    if c < 0:
+                        ok = False
+                    continue
+                cur = d[(x, y)]
+                if cur is None or c < cur:
+                    d[(x, y)] = c
+        if not ok:
+            continue
+        for k_ in nodes:
+            for i in nodes:
+                for j in nodes:
+                    a, b = d[(i, k_)], d[(k_, j)]
+                    if a is not None and b is not None and (d[(i, j)] is None or a + b < d[(i, j)]):
+                        d[(i, j)] = a + b
+        if all(d[(x, x)] >= 0 for x in nodes):
+            return True
+    return False
+
+
+def lin(coeffs, const, op):
+    return (dict(coeffs), Fraction(const), op)
